@@ -152,8 +152,8 @@ class C04(Check):
         d1, d2, d3 = (3, 2, None) if quick else (4, 3, 3)
         fl = [f for f in FILTERS if f not in ('Shuffle0', 'Shuffle1')]
         for facade in (False, True):
-            for s in SRC_ALL:
-                yield {'src': s, 'chain': [], 'facade': facade}, self.plans(facade, d1)
+            for s in SRC_ALL:              # bare sources: the complete alphabet down to the deepest level
+                yield {'src': s, 'chain': [], 'facade': facade}, self.plans(facade, d1, deep=False)
         for s in SRC_ALL:
             yield {'src': s, 'chain': [], 'facade': True, 'fan': True}, [(A_FAN, d1, None)]
         for facade in (False, True):
@@ -367,47 +367,49 @@ class C04(Check):
         return hist, fail
 
     def blame(self, pipe, hist, fail):
-        """-> (component label, input flavour or None, Fail that names the mode).  The source alone; else one filter of the chain
+        """-> (component label, input flavour or None, Fail that names the mode, minimal history on the blamed component).  The source alone; else one filter of the chain
         isolated on a harness-made, perfectly re-readable source that replays what a fresh upstream prefix yields; else the whole chain."""
         chain = pipe['chain']; fam = self.family(fail.mode)
         fan = ' x shuffle(n=2)' if pipe.get('fan') else ''
         srclabel = SOURCES[pipe['src']][1]
-        if not chain: return srclabel + fan, None, fail
-        f2 = self.fails_like(dict(pipe, chain=[]), hist, fam)
-        if f2 is not None: return srclabel + fan, None, f2
+        if not chain: return srclabel + fan, None, fail, hist
+        alone = dict(pipe, chain=[])
+        f2 = self.fails_like(alone, hist, fam)
+        if f2 is not None:
+            h2, f2 = self.minimise_history(alone, hist, f2)
+            return srclabel + fan, None, f2, h2
         for j in range(len(chain) - 1, -1, -1):
+            up = {'src': pipe['src'], 'chain': chain[:j], 'facade': False}
+            fresh = lambda up=up: list(self.build(up).env.read())
             try:
-                up = self.build({'src': pipe['src'], 'chain': chain[:j], 'facade': False})
-                items = list(up.env.read())
-                for it in items:            # harden lazily evaluated rows so that the replay source is self-contained
-                    for k in ('context', 'action'):
-                        if k in it: it[k] = _harden(it[k])
-                blob = pickle.dumps(items)
+                items = fresh()
             except ERRORS:    # noqa
                 continue
-            f2 = self.fails_like(dict(pipe, chain=[chain[j]], mem=blob), hist, fam)
+            iso = dict(pipe, chain=[chain[j]], mem=fresh)
+            f2 = self.fails_like(iso, hist, fam)
             if f2 is not None:
-                return FILTERS[chain[j]][0] + fan, (flavour(items[0]) if items else 'empty'), f2
-        return srclabel + ' > ' + ' > '.join(FILTERS[f][0] for f in chain) + fan, None, fail
+                h2, f2 = self.minimise_history(iso, hist, f2)
+                return FILTERS[chain[j]][0] + fan, (flavour(items[0]) if items else 'empty'), f2, h2
+        return srclabel + ' > ' + ' > '.join(FILTERS[f][0] for f in chain) + fan, None, fail, hist
 
     def classify(self, pipe, hist, fail):
-        """-> (finding key, minimal history, pipeline the history is for)"""
+        """-> (finding key, minimal history, pipeline the history is for).  The key names the blamed component, the failure
+        mode and the minimal history ON THE BLAMED COMPONENT; the witness is the minimal history on the explored pipeline."""
         hist = list(hist[:fail.step + 1]) if fail.step >= 0 else []
         if hist: hist, fail = self.minimise_history(pipe, hist, fail)
-        if pipe.get('fan') and hist and len({op_split(o)[1] for o in hist}) == 1:
-            # only one sibling is involved: the same failure on the plain pipeline  ... > Shuffle(seed) ?
-            sib = op_split(hist[0])[1]
-            pipe2 = {'src': pipe['src'], 'chain': pipe['chain'] + [f'Shuffle{sib}'], 'facade': True}
+        if pipe.get('fan') and hist:
+            # the same failure on the plain pipeline  ... > Shuffle(seed of the sibling read last)  ?
+            pipe2 = {'src': pipe['src'], 'chain': pipe['chain'] + [f'Shuffle{op_split(hist[-1])[1]}'], 'facade': True}
             hist2 = [op_split(o)[0] for o in hist]
             f2 = self.fails_like(pipe2, hist2, self.family(fail.mode))
             if f2 is not None: return self.classify(pipe2, hist2, f2)
-        comp, flv, fail = self.blame(pipe, hist, fail)
+        comp, flv, kfail, khist = self.blame(pipe, hist, fail)
         feat = []
         if flv: feat.append(f'input={flv}')
         if pipe['facade'] and not pipe.get('fan') and all(o in A_RAW for o in hist) and self.fails_like(dict(pipe, facade=False), hist, self.family(fail.mode)) is None:
             feat.append('through the Environments facade only')
-        feat.append('history=' + (','.join(KIND.get(op_split(o)[0], op_split(o)[0]) + ('' if '@' not in o else '@' + o[-1]) for o in hist) or 'none'))
-        return f'{comp}|{fail.mode}|{"; ".join(feat)}', hist, pipe
+        feat.append('history=' + (','.join(KIND.get(op_split(o)[0], op_split(o)[0]) + ('' if '@' not in o else '@' + o[-1]) for o in khist) or 'none'))
+        return f'{comp}|{kfail.mode}|{"; ".join(feat)}', hist, pipe
 
     # -------------------------------------------------------------- a case = all histories of one pipeline starting with one operation
     def run_case(self, case, acc):
